@@ -1,4 +1,14 @@
 import ZI.Classes
+import ZI.Classes2
+import ZI.Props.C01Hist
+/-! Driver for the declarations layer (C01).  Three things run in lock step on every line:
+* `ZI.Classes` — the executable model that the correspondence compares with the real code (its answers are printed);
+* `ZI.Classes2` — the same logic on `ZI.Graph2`, the model the history theorems of `ZI/Props/C01Hist.lean` are about;
+* the abstract specification state `ZI.C01.Spec` of those theorems (sets of interfaces, no graph, no caches).
+A query line prints ` MODELDIFF2` after the answer if the two models disagree, and ` SPECDIFF` if the history so far is
+well-formed in the sense of `C01_exact` (`WFop`, decided here) and the abstract answer (`implB` / `provB`) differs from the
+model's — by `C01_exact` neither can happen; printing them makes the tie between the proved model and the compared one a
+checked fact of every run, and `wf` lines report how much of the generated histories the theorem's guards admit. -/
 namespace Drv.Classes
 open ZI.Classes ZI.Graph
 def nums (s : String) : List Nat := (s.splitOn " ").filterMap String.toNat?
@@ -8,43 +18,77 @@ def FUEL := 64
 def interfacesOf : Nat → W → Nat → List Nat
   | 0, _, _ => []
   | f+1, w, s => if isIface s then [s] else dedupe ((w.g.get s).bases.flatMap (interfacesOf f w))
-partial def loop (h : IO.FS.Stream) (w : W) (fixed : Bool) : IO Unit := do
+
+structure Sh where
+  w2 : ZI.Classes2.W
+  σ : ZI.C01.Spec
+  wf : Bool                 -- every operation so far satisfied `WFop`
+  nops : Nat := 0
+  nwf : Nat := 0            -- operations issued while the history was still well-formed
+
+def Sh.init (fixed : Bool) : Sh := { w2 := ZI.Classes2.init fixed, σ := ZI.C01.Spec.init, wf := fixed }
+def Sh.step (sh : Sh) (op : ZI.C01.HOp) : Sh :=
+  let ok := sh.wf && decide (ZI.C01.WFop sh.σ op)
+  { w2 := ZI.C01.stepW FUEL sh.w2 op, σ := ZI.C01.specStep sh.σ op, wf := ok, nops := sh.nops + 1, nwf := sh.nwf + (if ok then 1 else 0) }
+
+/-- compare the interfaces of a cached order with the shadow model and (under well-formedness) with the abstract oracle -/
+def flags (ans2 : List Nat) (ans : List Nat) (sh : Sh) (specAns : Nat → Bool) : String :=
+  (if ans2 != ans then " MODELDIFF2" else "") ++
+  (if sh.wf && (sh.σ.ifaces.any fun i => specAns i != ans.contains i) then " SPECDIFF" else "") ++
+  (if sh.wf && (ans.any fun i => !(sh.σ.ifaces.contains i)) then " SPECDIFF" else "")
+
+partial def loop (h : IO.FS.Stream) (w : W) (sh : Sh) (fixed : Bool) : IO Unit := do
   let line ← h.getLine
   if line.isEmpty then return ()
   match line.trimAscii.toString.splitOn ":" with
   | [cmd, rest] =>
     let args := nums rest
     match (cmd.splitOn " ").filter (· != "") with
-    | ["reset"] => IO.println "ok"; loop h (init fixed) fixed
-    | ["iface", s] => IO.println "ok"; loop h { w with g := newNode w.g s.toNat! (if args.isEmpty then [0] else args) } fixed
-    | ["class", c] => IO.println "ok"; loop h (w.setCls c.toNat! { pyBases := if args.isEmpty then [0] else args }) fixed
-    | ["inst", o] => IO.println "ok"; loop h (w.setInst o.toNat! { cls := args.head! }) fixed
-    | ["add", c] => IO.println "ok"; loop h (classImplements FUEL w c.toNat! args) fixed
-    | ["only", c] => IO.println "ok"; loop h (classImplementsOnly FUEL w c.toNat! args) fixed
-    | ["first", c] => IO.println "ok"; loop h (classImplementsFirst FUEL w c.toNat! args.head!) fixed
-    | ["dp", o] => IO.println "ok"; loop h (directlyProvides FUEL w o.toNat! args) fixed
-    | ["also", o] => IO.println "ok"; loop h (alsoProvides FUEL w o.toNat! args) fixed
+    | ["reset"] => IO.println "ok"; loop h (init fixed) (Sh.init fixed) fixed
+    | ["iface", s] =>
+        let bs := if args.isEmpty then [0] else args
+        IO.println "ok"; loop h { w with g := newNode w.g s.toNat! bs } (sh.step (.iface s.toNat! bs)) fixed
+    | ["class", c] =>
+        let bs := if args.isEmpty then [0] else args
+        IO.println "ok"; loop h (w.setCls c.toNat! { pyBases := bs }) (sh.step (.cls c.toNat! bs)) fixed
+    | ["inst", o] => IO.println "ok"; loop h (w.setInst o.toNat! { cls := args.head! }) (sh.step (.inst o.toNat! args.head!)) fixed
+    | ["add", c] => IO.println "ok"; loop h (classImplements FUEL w c.toNat! args) (sh.step (.classImplements c.toNat! args)) fixed
+    | ["only", c] => IO.println "ok"; loop h (classImplementsOnly FUEL w c.toNat! args) (sh.step (.classImplementsOnly c.toNat! args)) fixed
+    | ["first", c] => IO.println "ok"; loop h (classImplementsFirst FUEL w c.toNat! args.head!) (sh.step (.classImplementsFirst c.toNat! args.head!)) fixed
+    | ["dp", o] => IO.println "ok"; loop h (directlyProvides FUEL w o.toNat! args) (sh.step (.directlyProvides o.toNat! args)) fixed
+    | ["also", o] => IO.println "ok"; loop h (alsoProvides FUEL w o.toNat! args) (sh.step (.alsoProvides o.toNat! args)) fixed
     | ["nl", o] =>
         let (w, err) := noLongerProvides FUEL w o.toNat! args.head!
-        IO.println (if err then "ValueError" else "ok"); loop h w fixed
+        let err2 := (ZI.Classes2.noLongerProvides FUEL sh.w2 o.toNat! args.head!).2
+        IO.println ((if err then "ValueError" else "ok") ++ (if err != err2 then " MODELDIFF2" else ""))
+        loop h w (sh.step (.noLongerProvides o.toNat! args.head!)) fixed
     | ["prov", o] =>
         let (w, s) := providedBy FUEL w o.toNat!
-        IO.println (shw ((w.sro s).filter isIface)); loop h w fixed
+        let sh := sh.step (.qProv o.toNat!)
+        let r2 := ZI.Classes2.providedBy FUEL sh.w2 o.toNat!
+        let ans := (w.sro s).filter isIface
+        IO.println (shw ans ++ flags ((r2.1.sro r2.2).filter isIface) ans sh (ZI.C01.provB sh.σ o.toNat!)); loop h w sh fixed
     | ["impl", c] =>
         let (w, s) := implementedBy FUEL w c.toNat!
-        IO.println (shw ((w.sro s).filter isIface)); loop h w fixed
+        let sh := sh.step (.qImpl c.toNat!)
+        let r2 := ZI.Classes2.implementedBy FUEL sh.w2 c.toNat!
+        let ans := (w.sro s).filter isIface
+        IO.println (shw ans ++ flags ((r2.1.sro r2.2).filter isIface) ans sh (ZI.C01.implB sh.σ c.toNat!)); loop h w sh fixed
     | ["plist", o] =>
         let (w, s) := providedBy FUEL w o.toNat!
-        IO.println (shw (interfacesOf FUEL w s)); loop h w fixed
+        IO.println (shw (interfacesOf FUEL w s)); loop h w (sh.step (.qProv o.toNat!)) fixed
     | ["ilist", c] =>
         let (w, s) := implementedBy FUEL w c.toNat!
-        IO.println (shw (interfacesOf FUEL w s)); loop h w fixed
-    | ["add", c, _] => IO.println "ok"; loop h (classImplements FUEL w c.toNat! args) fixed
-    | ["only", c, _] => IO.println "ok"; loop h (classImplementsOnly FUEL w c.toNat! args) fixed
-    | ["direct", o] => IO.println (shw (directlyProvidedBy w o.toNat!)); loop h w fixed
-    | _ => IO.println "bad"; loop h w fixed
-  | _ => IO.println "bad"; loop h w fixed
+        IO.println (shw (interfacesOf FUEL w s)); loop h w (sh.step (.qImpl c.toNat!)) fixed
+    | ["add", c, _] => IO.println "ok"; loop h (classImplements FUEL w c.toNat! args) (sh.step (.classImplements c.toNat! args)) fixed
+    | ["only", c, _] => IO.println "ok"; loop h (classImplementsOnly FUEL w c.toNat! args) (sh.step (.classImplementsOnly c.toNat! args)) fixed
+    | ["direct", o] =>
+        let d := directlyProvidedBy w o.toNat!
+        IO.println (shw d ++ (if ZI.Classes2.directlyProvidedBy sh.w2 o.toNat! != d then " MODELDIFF2" else "")); loop h w sh fixed
+    | ["wf"] => IO.println s!"wf {sh.wf} {sh.nwf} {sh.nops}"; loop h w sh fixed
+    | _ => IO.println "bad"; loop h w sh fixed
+  | _ => IO.println "bad"; loop h w sh fixed
 def main (args : List String) : IO Unit := do
   let fixed := args.contains "fixed"
-  loop (← IO.getStdin) (init fixed) fixed
+  loop (← IO.getStdin) (init fixed) (Sh.init fixed) fixed
 end Drv.Classes
